@@ -35,6 +35,10 @@ STRESS = [
     "class H<int n> { int v = n; } def h0 : H<1> { let v = !add(v, n); } def h1 : H<h0.v>; def h2 { H<3> inner = H<h1.v>; int w = inner.v; }",
     "class W { code c = [{ x }]; string s = \"a\" \"b\"; bit b = true; bits<2> bb = 0b11; dag d = (?); list<list<int>> ll = [[1], []]<list<int>>; }",
     "let a = 1, b<1...2> = 2, c<1> = [3] in def lt; let in def le; let x = in def ly;",
+    # forward declarations completed later, with the hierarchy closed through the declared name
+    "class FA; class FB : FA; class FA<int n> : FB { int x = n; } def fd : FA<1> { let nosuch = 1; }",
+    "class GA; class GB : GA; class GA : GB; class GC; def gd : GA; class GD { GC f = gd; } def ge : GB { int y = undefined1; }",
+    "class HA; class HB : HA { int b = 1; } class HC : HB; class HA : HC { string s = t; int u = b; } def hd : HC { let b = 2; }",
     # template argument lists: named / positional in every order, more values than parameters, names as strings (also non-ASCII)
     "class P1<int x>; def a1 : P1<x = 1, 2>; def a2 : P1<z = 0, 1>; class P2 : P1<x = 1, 2, 3>; def a3 : P1<1, 2, x = 3>;",
     "class Q2<int x, int y>; class Q3 { Q2 a = Q2<x = 1, y = 2, 3>; Q2 b = Q2<y = 1, 2, 3, 4>; } defvar q = Q2<x = 1, x = 2, 5>;",
